@@ -397,6 +397,28 @@ Theorem C09_root_inv_guard (batch : seq nat) (n : nat) (ivs : seq nat) :
         || [&& size ivs == (size batch).+2, take (size batch) ivs == batch & nth 0%N ivs (size batch) == n]).
 Proof. exact: root_inv_guard_spec. Qed.
 
+(* 19. StochasticLQ.to_dense (the stochastic trace / log-determinant consumer), transcribed: for every number of
+       probes, Krylov size and list of functions, entry i of the result is
+           sum_j n / num_probes * sum_l evecs_j[0, l]^2 * f_i(evals_j[l])
+       -- it depends on f_i only (one accumulator per function).  [C09_slq_quadrature]: each inner sum is the quadratic
+       form q_0^T f(A) q_0 of f(A) = U f(Lambda) U^T at the normalised probe, U = Q V the orthonormal eigenbasis of A
+       on span Q, whenever Q^T Q = I and A Q = Q T (theorems 4-6 / 14: full or exhausted Krylov space) and
+       (evals, evecs) diagonalise T (eigh's specification). *)
+Theorem C09_slq_to_dense (F : rcfType) (n k : nat) (evals : seq (vec F)) (evecs : seq (mat F)) (funcs : seq (F -> F)) i :
+  (i < size funcs)%N ->
+  nth 0 (slq_to_dense (ArR F) n k evals evecs funcs) i
+  = \sum_(j < size evals) n%:R / (size evals)%:R
+      * \sum_(l < k) (mget (ArR F) (nth [::] evecs j) 0 l) ^+ 2 * (nth id funcs i) (vget (ArR F) (nth [::] evals j) l).
+Proof. exact: slq_to_dense_closed. Qed.
+
+Theorem C09_slq_quadrature (F : rcfType) (n m : nat) (Q : 'M[F]_(n, m.+1)) (T V : 'M[F]_m.+1) (A : 'M[F]_n)
+    (lam : 'rV[F]_m.+1) (f : F -> F) :
+  Q^T *m Q = 1%:M -> A *m Q = Q *m T -> V^T *m V = 1%:M -> T *m V = V *m diag_mx lam ->
+  let U := Q *m V in let q0 := col ord0 Q in
+  [/\ U^T *m U = 1%:M, A *m U = U *m diag_mx lam &
+      \sum_l (V ord0 l) ^+ 2 * f (lam ord0 l) = (q0^T *m (U *m diag_mx (\row_l f (lam ord0 l)) *m U^T) *m q0) ord0 ord0].
+Proof. exact: slq_quadrature. Qed.
+
 Theorem C09_leading_singleton_batch_refuted :
   root_forward_shape (lanczos_lead 1 [:: 1; 2]%N) 5 5 = [:: 2; 5; 5]%N
   /\ (diag_forward_shape [:: 1; 2]%N 5 5).2 = [:: 2; 5; 5]%N /\ postprocess_shape [:: 1]%N 6 4 = [:: 6; 4]%N.
